@@ -58,6 +58,32 @@ example : checkOwn ⟨3, [⟨0, 1, 1, 1⟩, ⟨1, 2, 1, 1⟩, ⟨0, 2, 3, 3⟩],
     (fun v p => if v = 1 ∧ p = 0 then 1 else if v = 2 ∧ p = 1 then 5 / 2 else if v = 2 ∧ p = 0 then 3 else 0)
     0 2 [0, 1, 2] = some (5 / 2, 5 / 2) := by decide +kernel
 
+-- non-vacuity of `checkOwn_sound`, `own_lower_bound`, `own_witness_upper_bound`, `search_not_minimal_sound`
+-- (all hypotheses jointly, K = ℚ, true length = the common end of the degenerate enclosures): the optimum of the
+-- three-vertex space above is exactly 5/2, and an implementation cost of 3 is refuted
+example :
+    let S : Space := ⟨3, [⟨0, 1, 1, 1⟩, ⟨1, 2, 1, 1⟩, ⟨0, 2, 3, 3⟩], fun _ _ _ => 1, fun _ _ _ => true, 1 / 2⟩
+    (∃ c : Rat, Route S (fun e => e.wlo) 2 none 0 c ∧ (5 / 2 : Rat) ≤ c ∧ c ≤ (5 / 2 : Rat)) ∧
+    (∃ c : Rat, Route S (fun e => e.whi) 2 none 0 c ∧ c ≤ (5 / 2 : Rat)) ∧
+    (∃ c : Rat, Route S (fun e => e.wlo) 2 none 0 c ∧ c < 3) := by
+  intro S
+  let π : Nat → Nat → Rat :=
+    fun v p => if v = 1 ∧ p = 0 then 1 else if v = 2 ∧ p = 1 then 5 / 2 else if v = 2 ∧ p = 0 then 3 else 0
+  have hw : ∀ e ∈ S.edges, (e.wlo : Rat) ≤ e.wlo ∧ e.wlo ≤ (e.whi : Rat) := by
+    intro e he
+    simp only [S, List.mem_cons, List.not_mem_nil, or_false] at he
+    rcases he with rfl | rfl | rfl <;> norm_num
+  have hck : checkOwn S π 0 2 [0, 1, 2] = some (5 / 2, 5 / 2) := by decide +kernel
+  have hs := checkOwn_sound (K := Rat) S π 0 2 [0, 1, 2] (5 / 2) (5 / 2) hck (fun e => e.wlo) hw
+  refine ⟨?_, ?_, ?_⟩
+  · obtain ⟨c, hr, hle⟩ := hs.2
+    refine ⟨c, hr, ?_, hle⟩
+    exact own_lower_bound (K := Rat) S π 0 2 (5 / 2) (by decide) (by decide +kernel) (by decide +kernel)
+      (by decide +kernel) (by decide +kernel) (fun e => e.wlo) (fun e he => (hw e he).1) c hr
+  · exact own_witness_upper_bound (K := Rat) S (fun e => e.whi) (fun _ _ => le_refl _) 0 2 [0, 1, 2] (5 / 2)
+      rfl rfl (by decide +kernel)
+  · exact search_not_minimal_sound (K := Rat) S π 0 2 [0, 1, 2] (5 / 2) (5 / 2) hck (fun e => e.wlo) hw 3 (by norm_num)
+
 /-- `cost()` charges no bend exactly for a collinear triple passed straight on -/
 theorem bendCount_eq_zero_iff (a b c : Pt) :
     bendCount a b c = 0 ↔ area2 a b c = 0 ∧ (b.x - a.x) * (c.x - b.x) + (b.y - a.y) * (c.y - b.y) > 0 := by
